@@ -47,3 +47,17 @@ Proof. split; reflexivity. Qed.
 Theorem C01_split_iri_lossless : forall iri : str, let '(p, n) := split_iri iri in p ++ n = iri.
 Proof. exact split_iri_app. Qed.
 Print Assumptions C01_split_iri_lossless.
+
+From PJ.Proofs Require Import EncGraphs.
+
+Theorem C01_round_trip_graphs :
+  forall (o : soptions) (s s' : stream) (d : sdata) (evs : list tev) (delimited : bool),
+    stream_new GraphStream Generic o = Ok s -> cfg_ok o (st_logical s) ->
+    p_nd (so_params o) = false -> fl_rows (st_flow s) = [] -> forallb wf_quad (d_stmts d) = true ->
+    graphs_stream_frames_generic d s = (s', evs) -> raised evs = None ->
+    exists po ak st0 sk first more,
+      skip_empty (emitted evs) = (sk, first :: more) /\ options_from_frame first delimited = Ok po /\
+      route (po_phys po) = Ok ak /\ decoder_new po = Ok st0 /\
+      flat_obs (decode_frames Generic ak po (emitted evs) st0) = (flat_map event_of_quad (d_stmts d), None).
+Proof. exact graphs_round_trip. Qed.
+Print Assumptions C01_round_trip_graphs.
